@@ -604,6 +604,8 @@ pub fn run_batch(scn: &dyn Scenario, o: &BatchOpts) -> (Agg, f64) {
     let _ = std::fs::remove_dir_all(&dir);
     std::fs::create_dir_all(&dir).expect("batch dir");
     let jobs = o.jobs.max(1).min(nruns.max(1) as usize);
+    // fixtures are built once, by this process; the forked workers inherit and share them read-only
+    let _ = worker_dir_for(scn, o.tier);
     let o2 = BatchOpts { property: o.property.clone(), tier: o.tier, base_seed: o.base_seed, jobs, runs_override: o.runs_override, max_wall_s: o.max_wall_s };
     let mut pids = vec![];
     for w in 0..jobs {
